@@ -43,7 +43,7 @@ func newC02Env(n int) *c02Env {
 		e.total += e.w[i]
 		members[i] = interfaces.CommitteeMember{Id: primitives.MemberId{e.ids[i]}, Weight: primitives.MemberWeight(e.w[i])}
 	}
-	env.Assume(e.total > 0)
+	// total weight 0 is allowed: floor((0-1)/3) = -1, so Q = 1 and no signer set reaches it in strict mode
 	me := primitives.MemberId{e.ids[0]}
 	e.km = stub.NewKeyManager(e.reg, me)
 	e.mem = &stub.Membership{Me: me, Committee: members}
@@ -174,13 +174,13 @@ func C02_Struct() {
 		}
 		weight += env.IteU64(in, e.w[i], 0)
 	}
-	f := (e.total - 1) / 3
-	q := e.total - f
+	f := env.IteU64(e.total == 0, 0, (e.total-1)/3)
+	q := env.IteU64(e.total == 0, 1, e.total-f)
 	env.Assert("C02.sig", allValid)
 	env.Assert("C02.member", allMembers)
 	env.Assert("C02.distinct", distinct)
 	env.Assert("C02.weight_strict", env.Implies(env.Not(soft), weight >= q))
-	env.Assert("C02.weight_soft", env.Implies(soft, weight > f))
+	env.Assert("C02.weight_soft", env.Implies(env.And(soft, e.total > 0), weight > f))
 	// seed signature: non-empty and the group signature over the seed derived from the previous proof
 	seed := randomseed.CalculateRandomSeed(prevSeedSig)
 	want := stub.GroupSeedSig(uint64(block.H), randomseed.RandomSeedToBytes(seed))
@@ -239,7 +239,7 @@ func C02_Bytes() {
 		seen = append(seen, id[0])
 		weight += e.weightOf(id[0])
 	}
-	f := (e.total - 1) / 3
-	env.Assert("C02.weight_strict", env.Implies(env.Not(soft), weight >= e.total-f))
-	env.Assert("C02.weight_soft", env.Implies(soft, weight > f))
+	f := env.IteU64(e.total == 0, 0, (e.total-1)/3)
+	env.Assert("C02.weight_strict", env.Implies(env.Not(soft), weight >= env.IteU64(e.total == 0, 1, e.total-f)))
+	env.Assert("C02.weight_soft", env.Implies(env.And(soft, e.total > 0), weight > f))
 }
